@@ -48,17 +48,24 @@ theorem gen_open_close_facts :
     ∧ Gen.CursorFetch.closeAssigns = ["view = nil", "index = 0", "fetched = false"] := by
   decide
 
-/-! ## one FETCH: pointer invariant and positioning -/
+/-! ## index invariant -/
 
 /-- whatever the pointer was, after a FETCH it lies in [−1, len] (this is what the clamping ifs do) -/
 theorem fetch_reestablishes_inv {α} (rows : List α) (index : Int) (f : Bool) (p : Pos)
-    (c' : CState α) (r : Option α) (h : (CState.opened rows index f).fetch p = .ok (c', r)) : PtrInv c' := by
-  rcases fetch_cases rows index f p _ rfl with ⟨_, h'⟩ | ⟨_, _, h'⟩ | ⟨h0, h1, h'⟩ <;>
-    rw [h'] at h <;> injection h with h <;> injection h with h _ <;> subst h <;>
-    simp only [PtrInv, recordLen] at * <;> omega
+    (c' : CState α) (r : Option α) (h : (CState.opened rows index f).fetch p = .ok (c', r)) : PtrInv c' :=
+  fetch_opened_inv rows index f p c' r h
+
+/-- `open ⇒ −1 ≤ index ≤ len` after ANY history of DECLARE / OPEN / FETCH (any position, any offset) /
+    WHILE IN / CLOSE / DISPOSE / status expressions / DML, on any number of cursors -/
+theorem index_inv {α} (ops : List (Op α)) (name : String) (rows : List α) (i : Int) (f : Bool)
+    (h : lookup (run ([] : Scope α) ops).1 name = some (.opened rows i f)) : -1 ≤ i ∧ i ≤ rows.length := by
+  have := run_inv ops ([] : Scope α) (by intro p hp; cases hp) _ (lookup_mem _ _ _ h)
+  exact this
+
+/-! ## FETCH positions exactly -/
 
 /-
-  FULL STATEMENT (the manual's FETCH; FALSE for the current code — see `fetch_spec_counterexample`):
+  FULL STATEMENT (the manual's FETCH).  FALSE for the current code — see `fetch_spec_counterexample`:
 
   theorem fetch_spec (rows : List α) (index : Int) (f : Bool) (p : Pos)
       (hinv : -1 ≤ index ∧ index ≤ rows.length) (hlen : LenOK rows) (hn : inI64 p.number) :
@@ -78,8 +85,14 @@ theorem fetch_spec_counterexample :
       (-1 ≤ index ∧ index ≤ rows.length) ∧ LenOK rows ∧ inI64 p.number ∧
       (CState.opened rows index true).fetch p ≠ .ok (specFetch rows index p) ∧
       (CState.opened rows index true).fetch p = .ok (.opened rows (-1) true, none) ∧
-      specFetch rows index p = (.opened rows 2 true, none) :=
-  ⟨[10, 20], 1, .relative 9223372036854775807, by decide, by decide, by decide, by decide, by decide, by decide⟩
+      specFetch rows index p = (.opened rows 2 true, none) := by
+  refine ⟨[10, 20], 1, .relative 9223372036854775807, by decide, by decide, by decide, ?_, rfl, rfl⟩
+  intro h
+  have h1 : (CState.opened [10, 20] 1 true).fetch (.relative 9223372036854775807)
+      = .ok (.opened [10, 20] (-1) true, none) := rfl
+  have h2 : specFetch [10, 20] 1 (.relative 9223372036854775807) = (.opened [10, 20] 2 true, none) := rfl
+  rw [h1, h2] at h
+  simp at h
 
 /-- the same on the other side: from before-the-first, `FETCH RELATIVE −9223372036854775808` rests
     AFTER the last row (the next FETCH PRIOR returns the last row) -/
@@ -88,7 +101,7 @@ theorem fetch_spec_counterexample_neg :
       LenOK rows ∧ inI64 p.number ∧
       (CState.opened rows (-1) false).fetch p = .ok (.opened rows 2 true, none) ∧
       specFetch rows (-1) p = (.opened rows (-1) true, none) :=
-  ⟨[10, 20], .relative (-9223372036854775808), by decide, by decide, by decide, by decide⟩
+  ⟨[10, 20], .relative (-9223372036854775808), by decide, by decide, rfl, rfl⟩
 
 /-- FETCH does what the manual says whenever the Go addition does not overflow
     (always for NEXT / PRIOR / FIRST / LAST / ABSOLUTE n, any n) -/
@@ -96,20 +109,18 @@ theorem fetch_spec_partial {α} (rows : List α) (index : Int) (f : Bool) (p : P
     (hinv : -1 ≤ index ∧ index ≤ rows.length) (hlen : LenOK rows) (hno : NoOverflow p index) :
     (CState.opened rows index f).fetch p = .ok (specFetch rows index p) := by
   have hm := moveIndex_eq_target rows index p hinv hlen hno
+  have hl : (0 : Int) ≤ rows.length := by omega
   unfold specFetch
   rcases fetch_cases rows index f p _ hm with ⟨h0, h'⟩ | ⟨h0, h1, h'⟩ | ⟨h0, h1, h'⟩ <;> rw [h'] <;>
-    simp only [recordLen] at * <;> unfold clamp
-  · have : ¬ (0 ≤ target p index rows.length) := by omega
-    simp [h0, this]
-  · have h2 : ¬ (target p index rows.length < (rows.length : Int)) := by omega
-    have h3 : ¬ (target p index rows.length < -1) := by omega
-    by_cases h4 : (rows.length : Int) < target p index rows.length
-    · simp [h2, h3, h4]
-    · have : target p index rows.length = rows.length := by omega
-      simp [h2, h3, h4, this]
-  · have h3 : ¬ (target p index rows.length < -1) := by omega
-    have h4 : ¬ ((rows.length : Int) < target p index rows.length) := by omega
-    simp [h0, h1, h3, h4]
+    simp only [recordLen] at *
+  · rw [clamp_below h0 hl]
+    have : ¬ (0 ≤ target p index rows.length) := by omega
+    simp [this]
+  · rw [clamp_above h1 hl]
+    have h2 : ¬ (target p index rows.length < (rows.length : Int)) := by omega
+    simp [h2]
+  · rw [clamp_in h0 h1]
+    simp [h0, h1]
 
 /-- the overflow is the ONLY way the code departs from the manual: for an int64 offset, FETCH RELATIVE
     agrees with the specification if and only if `index + n` fits int64 -/
@@ -122,25 +133,25 @@ theorem fetch_relative_spec_iff_no_overflow {α} (rows : List α) (index n : Int
     by_cases hin : inI64 (index + n)
     · exact hin
     · exfalso
+      have hl : (0 : Int) ≤ rows.length := by omega
       unfold LenOK maxI64 at hlen
       unfold inI64 minI64 maxI64 at hn hin
-      have hcases : maxI64 < index + n ∨ index + n < minI64 := by unfold minI64 maxI64; omega
-      unfold specFetch target clamp at h
+      unfold specFetch at h
+      simp only [target] at h
+      have hcases : 9223372036854775807 < index + n ∨ index + n < -9223372036854775808 := by omega
       rcases hcases with hov | hun
-      · have hw := wrap64_add_over hov (by unfold minI64; omega)
+      · have hw : wrap64 (index + n) = index + n - 18446744073709551616 :=
+          wrap64_add_over (by unfold maxI64; omega) (by unfold minI64; omega)
+        have hge : (rows.length : Int) ≤ index + n := by omega
+        rw [clamp_above hge hl] at h
         rcases fetch_cases rows index f (.relative n) _ rfl with ⟨h0, h'⟩ | ⟨h0, h1, h'⟩ | ⟨h0, h1, h'⟩ <;>
-          rw [h'] at h <;> simp only [moveIndex, recordLen] at * <;> unfold maxI64 at hov
-        · injection h with h; injection h with h _; injection h with _ h _
-          split at h <;> (try split at h) <;> omega
-        · omega
-        · omega
-      · have hw := wrap64_add_under hun (by unfold minI64; omega)
+          rw [h'] at h <;> simp only [moveIndex, recordLen, Except.ok.injEq, Prod.mk.injEq, CState.opened.injEq] at * <;> omega
+      · have hw : wrap64 (index + n) = index + n + 18446744073709551616 :=
+          wrap64_add_under (by unfold minI64; omega) (by unfold minI64; omega)
+        have hlt : index + n < 0 := by omega
+        rw [clamp_below hlt hl] at h
         rcases fetch_cases rows index f (.relative n) _ rfl with ⟨h0, h'⟩ | ⟨h0, h1, h'⟩ | ⟨h0, h1, h'⟩ <;>
-          rw [h'] at h <;> simp only [moveIndex, recordLen] at * <;> unfold minI64 at hun
-        · omega
-        · injection h with h; injection h with h _; injection h with _ h _
-          split at h <;> (try split at h) <;> omega
-        · omega
+          rw [h'] at h <;> simp only [moveIndex, recordLen, Except.ok.injEq, Prod.mk.injEq, CState.opened.injEq] at * <;> omega
   · intro h
     exact fetch_spec_partial rows index f (.relative n) hinv hlen h
 
@@ -149,12 +160,222 @@ theorem fetch_returns_row_at_pointer {α} (rows : List α) (index : Int) (f : Bo
     (c' : CState α) (x : α) (h : (CState.opened rows index f).fetch p = .ok (c', some x)) :
     ∃ i : Nat, c' = .opened rows i true ∧ rows[i]? = some x := by
   rcases fetch_cases rows index f p _ rfl with ⟨_, h'⟩ | ⟨_, _, h'⟩ | ⟨h0, h1, h'⟩ <;> rw [h'] at h <;>
-    injection h with h <;> injection h with h hx
-  · cases hx
-  · cases hx
-  · refine ⟨(moveIndex p index (recordLen rows)).toNat, ?_, hx⟩
-    rw [← h]
+    simp only [Except.ok.injEq, Prod.mk.injEq] at h
+  · exact absurd h.2 (by simp)
+  · exact absurd h.2 (by simp)
+  · refine ⟨(moveIndex p index (recordLen rows)).toNat, ?_, h.2⟩
+    rw [← h.1]
     congr
     omega
+
+/-! ## WHILE IN -/
+
+/-- WHILE IN on a freshly opened cursor visits every row exactly once, in order, and terminates with
+    the pointer after the last row -/
+theorem while_in_visits_all_once {α} (rows : List α) (hl : LenOK rows) :
+    whileIn (whileFuel (CState.opened rows (-1) false)) none (CState.opened rows (-1) false) []
+      = .ok (.opened rows rows.length true, rows) := by
+  have := whileIn_none_general rows hl (rows.length + 2) (-1) false [] (by omega) (by omega) (by omega)
+  simpa [whileFuel] using this
+
+/-- from any pointer position: exactly the rows after the pointer, in order -/
+theorem while_in_from_pointer {α} (rows : List α) (hl : LenOK rows) (i : Int) (f : Bool)
+    (hinv : -1 ≤ i ∧ i ≤ rows.length) :
+    whileIn (whileFuel (CState.opened rows i f)) none (CState.opened rows i f) []
+      = .ok (.opened rows rows.length true, rows.drop (i + 1).toNat) := by
+  have := whileIn_none_general rows hl (rows.length + 2) i f [] hinv.1 hinv.2 (by omega)
+  simpa [whileFuel] using this
+
+/-- with BREAK in the k-th iteration: the first k of those rows; the pointer stays on the k-th -/
+theorem while_in_break {α} (rows : List α) (hl : LenOK rows) (i : Int) (f : Bool) (k : Nat) (hk : 1 ≤ k)
+    (hinv : -1 ≤ i ∧ i ≤ rows.length) :
+    whileIn (whileFuel (CState.opened rows i f)) (some k) (CState.opened rows i f) []
+      = .ok (.opened rows (if i + k < rows.length then i + k else rows.length) true,
+             (rows.drop (i + 1).toNat).take k) := by
+  have := whileIn_break_general rows hl (rows.length + 2) k i f [] hk hinv.1 hinv.2 (by omega)
+  simpa [whileFuel] using this
+
+/-- the loop bound of the model is never what ends the loop: more iterations change nothing -/
+theorem while_in_terminates {α} (rows : List α) (hl : LenOK rows) (i : Int) (f : Bool)
+    (hinv : -1 ≤ i ∧ i ≤ rows.length) (fuel : Nat) (hf : rows.length + 2 ≤ fuel) :
+    whileIn fuel none (CState.opened rows i f) []
+      = whileIn (whileFuel (CState.opened rows i f)) none (CState.opened rows i f) [] := by
+  rw [whileIn_none_general rows hl fuel i f [] hinv.1 hinv.2 (by omega)]
+  have := whileIn_none_general rows hl (rows.length + 2) i f [] hinv.1 hinv.2 (by omega)
+  simpa [whileFuel] using this.symm
+
+/-! ## COUNT / IS OPEN / IS IN RANGE agree with the state -/
+
+theorem count_agrees {α} (rows : List α) (i : Int) (f : Bool) :
+    (CState.opened rows i f).count = .ok (rows.length : Int) := rfl
+
+theorem is_open_iff {α} (c : CState α) : c.isOpen = true ↔ ∃ rows i f, c = .opened rows i f := by
+  cases c <;> simp [CState.isOpen]
+
+theorem in_range_iff_pointer {α} (rows : List α) (i : Int) :
+    (CState.opened rows i true).isInRange = .ok (Tern.ofBool (decide (0 ≤ i ∧ i < rows.length))) := by
+  have h : (-1 < i ∧ i < recordLen rows) ↔ (0 ≤ i ∧ i < rows.length) := by
+    simp only [recordLen]; omega
+  simp only [CState.isInRange, h]
+
+theorem in_range_unknown_before_first_fetch {α} (c c' : CState α) (rows : List α) (h : c.open rows = .ok c') :
+    c' = .opened rows (-1) false ∧ c'.isInRange = .ok .U ∧ c'.count = .ok (rows.length : Int) ∧ c'.isOpen = true := by
+  cases c with
+  | closed =>
+    simp only [CState.open, Except.ok.injEq] at h
+    subst h
+    exact ⟨rfl, rfl, rfl, rfl⟩
+  | opened r i f => simp [CState.open] at h
+
+/-- IS IN RANGE after a FETCH is TRUE exactly when that FETCH returned a row -/
+theorem in_range_iff_last_fetch_returned {α} (c c' : CState α) (p : Pos) (r : Option α)
+    (h : c.fetch p = .ok (c', r)) : c'.isInRange = .ok (Tern.ofBool r.isSome) := by
+  cases c with
+  | closed => simp [CState.fetch] at h
+  | opened rows i f =>
+    rcases fetch_cases rows i f p _ rfl with ⟨h0, h'⟩ | ⟨h0, h1, h'⟩ | ⟨h0, h1, h'⟩
+    all_goals
+      rw [h'] at h
+      simp only [Except.ok.injEq, Prod.mk.injEq] at h
+      obtain ⟨rfl, rfl⟩ := h
+      rw [in_range_iff_pointer]
+      simp only [recordLen] at *
+    · simp
+    · have : ¬ ((rows.length : Int) < rows.length) := by omega
+      simp
+    · have hlt : (moveIndex p i rows.length).toNat < rows.length := by omega
+      simp [h0, h1, hlt]
+
+
+/-- status expressions do not move the cursor -/
+theorem status_ops_pure {α} (s : Scope α) (n : String) :
+    (step s (.count n)).1 = s ∧ (step s (.isOpen n)).1 = s ∧ (step s (.isInRange n)).1 = s := by
+  refine ⟨?_, ?_, ?_⟩ <;> simp only [step] <;> split <;> (try rfl) <;> split <;> rfl
+
+/-! ## errors, never stale data -/
+
+theorem closed_errors {α} (p : Pos) (fuel : Nat) (brk : Option Nat) (acc : List α) :
+    (CState.closed : CState α).fetch p = .error .closed ∧
+    (CState.closed : CState α).isInRange = .error .closed ∧
+    (CState.closed : CState α).count = .error .closed ∧
+    (CState.closed : CState α).isOpen = false ∧
+    whileIn (fuel + 1) brk (CState.closed : CState α) acc = .error .closed := by
+  simp [CState.fetch, CState.isInRange, CState.count, CState.isOpen, whileIn]
+
+theorem reopen_error {α} (rows rows' : List α) (i : Int) (f : Bool) :
+    (CState.opened rows i f).open rows' = .error .alreadyOpen := rfl
+
+theorem undeclared_error {α} (s : Scope α) (n : String) (op : Op α) (hop : op.names n)
+    (h : lookup s (key n) = none) : step s op = (s, .err .undeclared) := by
+  cases op <;> simp only [Op.names] at hop <;> subst hop <;> simp [step, h]
+
+theorem redeclare_error {α} (s : Scope α) (n : String) (c : CState α) (h : lookup s (key n) = some c) :
+    step s (.declare n) = (s, .err .redeclared) := by
+  simp [step, h]
+
+/-- after CLOSE, every use of the cursor except OPEN / CLOSE / DISPOSE is the "closed" error — never a stale row -/
+theorem closed_after_close {α} (s : Scope α) (n : String) (c : CState α) (h : lookup s (key n) = some c)
+    (p : Pos) (brk : Option Nat) :
+    let s' := (step s (.close n)).1
+    step s' (.fetch n p) = (s', .err .closed) ∧
+    step s' (.count n) = (s', .err .closed) ∧
+    step s' (.isInRange n) = (s', .err .closed) ∧
+    step s' (.whileIn n brk) = (s', .err .closed) ∧
+    step s' (.isOpen n) = (s', .tern .F) := by
+  have hl : lookup (update s (key n) (CState.closed : CState α)) (key n) = some .closed :=
+    lookup_update_same _ _ _ (by simp [h])
+  simp [step, h, CState.close, hl, CState.fetch, CState.count, CState.isInRange, CState.isOpen, whileIn, whileFuel, Tern.ofBool]
+
+/-- after DISPOSE (in any reachable scope) the name is undeclared: every use is the "undeclared" error -/
+theorem disposed_is_undeclared {α} (ops : List (Op α)) (n : String) :
+    let s := (run ([] : Scope α) ops).1
+    lookup (step s (.dispose n)).1 (key n) = none := by
+  intro s
+  have hu : Uniq s := run_uniq ops [] (by simp [Uniq])
+  simp only [step]
+  split
+  · exact erase_removes _ _ hu
+  · rename_i h; exact h
+
+/-! ## snapshot -/
+
+/-- between OPEN and CLOSE/DISPOSE — whatever else happens: DML (`Op.dml`), statements on other cursors,
+    failing OPEN / DECLARE of the same name — the cursor keeps the OPEN-time rows, and every row a
+    FETCH or a WHILE IN hands out is one of them -/
+theorem snapshot {α} (ops : List (Op α)) : ∀ (s : Scope α) (k : String) (rows : List α) (i : Int) (f : Bool),
+    lookup s k = some (.opened rows i f) → (∀ op ∈ ops, ¬ op.discards k) →
+    (∃ i' f', lookup (run s ops).1 k = some (.opened rows i' f')) ∧
+    (∀ (j : Nat) (n : String), key n = k →
+       (∀ p x, ops[j]? = some (.fetch n p) → (run s ops).2[j]? = some (.row x) → x ∈ rows) ∧
+       (∀ brk seen, ops[j]? = some (.whileIn n brk) → (run s ops).2[j]? = some (.rows seen) →
+          ∀ x ∈ seen, x ∈ rows)) := by
+  induction ops with
+  | nil =>
+    intro s k rows i f h _
+    exact ⟨⟨i, f, h⟩, by intro j n _; simp⟩
+  | cons op rest ih =>
+    intro s k rows i f h hd
+    obtain ⟨i1, f1, h1⟩ := step_keeps_view s op k rows i f h (hd op (by simp))
+    obtain ⟨ihA, ihB⟩ := ih (step s op).1 k rows i1 f1 h1 (fun o ho => hd o (by simp [ho]))
+    refine ⟨by simpa only [run] using ihA, ?_⟩
+    intro j n hk
+    cases j with
+    | zero =>
+      have hv := step_result_from_view s op rows i f n (by rw [hk]; exact h)
+      simp only [run, List.getElem?_cons_zero, Option.some.injEq]
+      constructor
+      · intro p x hop hr; exact hv.1 p x hop hr
+      · intro brk seen hop hr; exact hv.2 brk seen hop hr
+    | succ j =>
+      simp only [run, List.getElem?_cons_succ]
+      exact ihB j n hk
+
+/-- OPEN stores the result of the query as evaluated at that moment, pointer before the first row -/
+theorem open_takes_snapshot {α} (s : Scope α) (n : String) (rows : List α)
+    (h : (step s (.open n rows)).2 = .ok) :
+    lookup (step s (.open n rows)).1 (key n) = some (.opened rows (-1) false) := by
+  simp only [step] at h ⊢
+  split at h
+  · cases h
+  · rename_i c hl
+    cases c with
+    | opened r i f => simp [CState.open] at h
+    | closed =>
+      simp only [CState.open]
+      exact lookup_update_same _ _ _ (by simp [hl])
+
+
+/-! ## non-vacuity: the hypotheses are satisfiable, the model does something -/
+
+/-- hypotheses of `fetch_spec_partial` hold together, also for a huge offset that does not overflow -/
+example : ∃ (rows : List Nat) (i : Int) (p : Pos),
+    (-1 ≤ i ∧ i ≤ rows.length) ∧ LenOK rows ∧ NoOverflow p i ∧
+    (CState.opened rows i false).fetch p = .ok (.opened rows 3 true, none) :=
+  ⟨[1, 2, 3], -1, .relative 9223372036854775807, by decide, by decide, by show inI64 _; decide, rfl⟩
+
+/-- … and with a row returned -/
+example : (CState.opened [10, 20, 30] 2 true).fetch (.relative (-2)) = .ok (.opened [10, 20, 30] 0 true, some 10) := rfl
+
+/-- after running off the end the pointer is clamped: PRIOR returns the last row -/
+example : ((CState.opened [10, 20, 30] 0 true).fetch (.absolute 9223372036854775807)).bind (fun r => r.1.fetch .prior)
+    = .ok (.opened [10, 20, 30] 2 true, some 30) := rfl
+
+/-- a whole history: names are case-insensitive, DML does not matter, CLOSE makes FETCH an error -/
+example : (run ([] : Scope Nat)
+    [.declare "cur", .open "CUR" [1, 2, 3], .fetch "Cur" .next, .dml, .fetch "cur" (.absolute 2), .fetch "cur" .next,
+     .isInRange "cur", .open "cur" [7], .close "cur", .fetch "cur" .next, .dispose "cur", .count "cur"]).2
+    = [.ok, .ok, .row 1, .ok, .row 3, .none, .tern .F, .err .alreadyOpen, .ok, .err .closed, .ok, .err .undeclared] := by
+  rfl
+
+/-- WHILE IN sees the rows in order -/
+example : whileIn 5 none (CState.opened [1, 2, 3] (-1) false) [] = .ok (.opened [1, 2, 3] 3 true, [1, 2, 3]) := rfl
+
+/-- the premises of `snapshot` are satisfiable by a history that does contain DML and fetches -/
+example : ∃ (s : Scope Nat) (ops : List (Op Nat)), lookup s "C" = some (.opened [1, 2] (-1) false) ∧
+    (∀ op ∈ ops, ¬ op.discards "C") ∧ ops.length = 3 :=
+  ⟨[("C", .opened [1, 2] (-1) false)], [.dml, .fetch "c" .next, .dml], rfl, by
+    intro op h
+    simp only [List.mem_cons, List.not_mem_nil, or_false] at h
+    rcases h with rfl | rfl | rfl <;> simp [Op.discards], rfl⟩
 
 end Csvq.C16
